@@ -101,6 +101,7 @@ def export_to_yaml(statechart: Statechart, filepath: str = None) -> str:
     output = StringIO()
 
     yml = yaml.YAML(typ='safe', pure=True)
+    yml.default_flow_style = False  # plain scalars are only safely re-read in block context
     yml.dump(export_to_dict(statechart), output)
 
     if filepath:
